@@ -64,6 +64,15 @@ class Vocab:
                 if val and (not vcs or "numericClass" in vcs):
                     self.value.append((parent, val, "unit"))
                     self.unit_tags.append(parent)
+                    # ... and the same unit with an SI prefix (symbol prefix for symbols, name prefix for names)
+                    un = val.split(" ", 1)[1]
+                    ud = next((cd["units"][un] for cd in f.unit_classes.values() if un in cd["units"]), None)
+                    if ud and "SIUnit" in ud["attrs"]:
+                        sym = "unitSymbol" in ud["attrs"]
+                        pre = [m for m, md in f.modifiers.items() if ("SIUnitSymbolModifier" if sym else "SIUnitModifier") in md["attrs"]]
+                        pre = [m for m in pre if m in ("k", "m", "kilo", "milli")] or pre
+                        if pre:
+                            self.value.append((parent, "3 " + sorted(pre)[0] + un, "unit-si"))
             elif vcs and all(vc in VALUE_BY_CLASS for vc in vcs):
                 # a value is legal when it fits ANY of the tag's value classes: one sample per class
                 for vc in vcs:
